@@ -9,7 +9,11 @@ CONSTANTS Callers, CfgSet, MaxTime, Outs
 VARIABLES cfg, now, lim, st, gout, gid, ngate, ev
 vars == <<cfg, now, lim, st, gout, gid, ngate, ev>>
 view == <<cfg, now, lim, st, gout, gid, ngate>>
+\* cfg.two = 1: the layer is applied twice; both services share the algorithm (the limit) but count
+\* their own calls.  Caller c uses service 1 + c % 2 then, service 1 otherwise.
+SvcOf(c) == IF "two" \in DOMAIN cfg /\ cfg.two = 1 THEN 1 + (c % 2) ELSE 1
 Running == {c \in Callers : st[c] = "running"}
+InFlightOf(s) == Cardinality({c \in Running : SvcOf(c) = s})
 InFlight == Cardinality(Running)
 Clamp(x) == IF x < cfg.min THEN cfg.min ELSE IF x > cfg.max THEN cfg.max ELSE x
 InitWith(cf) == /\ cfg = cf /\ now = 0 /\ lim = Clamp(cf.initial)
@@ -19,30 +23,32 @@ Reset(cf) == /\ cfg' = cf /\ now' = 0 /\ lim' = (IF cf.initial < cf.min THEN cf.
              /\ st' = [c \in Callers |-> "idle"] /\ gout' = [c \in Callers |-> "none"] /\ gid' = [c \in Callers |-> 0] /\ ngate' = 0
              /\ ev' = [e |-> "reset"]
 \* what every event shows afterwards: exact in-flight count, a limit within bounds
-Obs(infl, l) == [inf |-> infl, limit |-> l]
+\* per-service in-flight counts after a step in which caller c's service count changes by d
+ObsD(c, d, l) == [inf |-> InFlightOf(1) + (IF c # 0 /\ SvcOf(c) = 1 THEN d ELSE 0),
+                  inf2 |-> InFlightOf(2) + (IF c # 0 /\ SvcOf(c) = 2 THEN d ELSE 0), limit |-> l]
 LimOK(l) == cfg.min <= l /\ l <= cfg.max
 
 \* a readiness probe on some clone: Ready iff fewer than limit calls are in flight
-Probe ==
-  /\ ev' = [e |-> "op", name |-> "probe", t |-> now, res |-> (IF InFlight < lim THEN "ready" ELSE "pending")] @@ Obs(InFlight, lim)
+Probe(s) ==
+  /\ ev' = [e |-> "op", name |-> "probe", svc |-> s, t |-> now, res |-> (IF InFlightOf(s) < lim THEN "ready" ELSE "pending")] @@ ObsD(0, 0, lim)
   /\ UNCHANGED <<cfg, now, lim, st, gout, gid, ngate>>
 \* poll_ready + call: a caller that found the limiter not ready does not call (Tower contract)
 Create(c) ==
   /\ st[c] = "idle"
-  /\ IF InFlight < lim
+  /\ IF InFlightOf(SvcOf(c)) < lim
      THEN /\ st' = [st EXCEPT ![c] = "running"] /\ gout' = [gout EXCEPT ![c] = "pending"]
           /\ gid' = [gid EXCEPT ![c] = ngate + 1] /\ ngate' = ngate + 1
-          /\ ev' = [e |-> "create", c |-> c, t |-> now, res |-> "created", ns |-> 1, si |-> ngate + 1] @@ Obs(InFlight + 1, lim)
+          /\ ev' = [e |-> "create", c |-> c, t |-> now, res |-> "created", ns |-> 1, si |-> ngate + 1] @@ ObsD(c, 1, lim)
      ELSE /\ st' = [st EXCEPT ![c] = "refused"] /\ UNCHANGED <<gout, gid, ngate>>
-          /\ ev' = [e |-> "create", c |-> c, t |-> now, res |-> "created", ns |-> 0] @@ Obs(InFlight, lim)
+          /\ ev' = [e |-> "create", c |-> c, t |-> now, res |-> "created", ns |-> 0] @@ ObsD(0, 0, lim)
   /\ UNCHANGED <<cfg, now, lim>>
 PollRefused(c) ==
   /\ st[c] = "refused" /\ st' = [st EXCEPT ![c] = "done"]
-  /\ ev' = [e |-> "poll", c |-> c, t |-> now, res |-> "err", kind |-> "notready", ns |-> 0] @@ Obs(InFlight, lim)
+  /\ ev' = [e |-> "poll", c |-> c, t |-> now, res |-> "err", kind |-> "notready", ns |-> 0] @@ ObsD(0, 0, lim)
   /\ UNCHANGED <<cfg, now, lim, gout, gid, ngate>>
 Complete(c, o) ==
   /\ st[c] = "running" /\ gout[c] = "pending" /\ gout' = [gout EXCEPT ![c] = o]
-  /\ ev' = [e |-> "complete", c |-> c, i |-> gid[c], out |-> o, t |-> now] @@ Obs(InFlight, lim)
+  /\ ev' = [e |-> "complete", c |-> c, i |-> gid[c], out |-> o, t |-> now] @@ ObsD(0, 0, lim)
   /\ UNCHANGED <<cfg, now, lim, st, gid, ngate>>
 \* the poll that sees the inner result: no longer in flight; the algorithm may move the limit (within bounds)
 PollDone(c, l2) ==
@@ -52,29 +58,29 @@ PollDone(c, l2) ==
   /\ ev' = (IF gout[c] = "ok" THEN [res |-> "ok", val |-> gid[c], rq |-> c]
             ELSE IF gout[c] = "panic" THEN [res |-> "panic"]
             ELSE [res |-> "err", kind |-> "inner1", val |-> gid[c]])
-           @@ [e |-> "poll", c |-> c, t |-> now, ns |-> 0] @@ Obs(InFlight - 1, l2)
+           @@ [e |-> "poll", c |-> c, t |-> now, ns |-> 0] @@ ObsD(c, 0 - 1, l2)
   /\ UNCHANGED <<cfg, now, gout, gid, ngate>>
 PollStutter(c) ==
   /\ st[c] = "running" /\ gout[c] = "pending"
-  /\ ev' = [e |-> "poll", c |-> c, t |-> now, res |-> "pending", ns |-> 0] @@ Obs(InFlight, lim)
+  /\ ev' = [e |-> "poll", c |-> c, t |-> now, res |-> "pending", ns |-> 0] @@ ObsD(0, 0, lim)
   /\ UNCHANGED <<cfg, now, lim, st, gout, gid, ngate>>
 \* cancellation: a dropped call stops counting at once
 Drop(c) ==
   /\ st[c] \in {"running", "refused"} /\ st' = [st EXCEPT ![c] = "done"]
-  /\ ev' = [e |-> "drop", c |-> c, t |-> now, ns |-> 0] @@ Obs(IF st[c] = "running" THEN InFlight - 1 ELSE InFlight, lim)
+  /\ ev' = [e |-> "drop", c |-> c, t |-> now, ns |-> 0] @@ ObsD(c, IF st[c] = "running" THEN 0 - 1 ELSE 0, lim)
   /\ UNCHANGED <<cfg, now, lim, gout, gid, ngate>>
 Advance(d) ==
   /\ d > 0 /\ now' = now + d
-  /\ ev' = [e |-> "advance", d |-> d, t |-> now + d] @@ Obs(InFlight, lim)
+  /\ ev' = [e |-> "advance", d |-> d, t |-> now + d] @@ ObsD(0, 0, lim)
   /\ UNCHANGED <<cfg, lim, st, gout, gid, ngate>>
 Next ==
-  \/ Probe
+  \/ \E s \in {1, 2} : Probe(s)
   \/ \E c \in Callers : Create(c) \/ PollRefused(c) \/ Drop(c) \/ (\E l2 \in cfg.min..cfg.max : PollDone(c, l2))
   \/ \E c \in Callers, o \in Outs : Complete(c, o)
   \/ (now < MaxTime /\ Advance(1))
 Spec == Init /\ [][Next]_vars
 \* C13
-NeverOverLimitAtAdmission == (ev.e = "create" /\ ev.ns = 1) => ev.inf <= ev.limit
+NeverOverLimitAtAdmission == (ev.e = "create" /\ ev.ns = 1) => (ev.inf <= ev.limit /\ ev.inf2 <= ev.limit)
 ZeroWhenIdle == (\A c \in Callers : st[c] \in {"idle", "done", "refused"}) => InFlight = 0
 LimitInBounds == LimOK(lim)
 =============================================================================
